@@ -26,7 +26,7 @@ FACTOR = 20.0
 
 
 def floors(tier):
-    return {"runs": 400, "runs_with_bound_at_start": 150, "runs_with_active_bound_at_end": 150, "outward_start_runs": 60, "__nontrivial__": 150}
+    return {"runs": 400, "runs_with_bound_at_start": 150, "runs_with_active_bound_at_end": 150, "outward_start_runs": 60, "lattice_least_squares_runs": 60, "runs_with_free_optimum_grazing_a_bound": 60, "__nontrivial__": 150}
 
 
 def exhaustive(tier):
@@ -42,6 +42,12 @@ def cases(tier, seed):
                            boxes=("none", "mixed", "mixed", "boxed", "narrow", "lower", "upper", "boxed_degenerate", "nonneg", "unit", "zero_mixed"),
                            starts=("interior", "face", "vertex", "outward", "outward"))
         yield {"kind": "random", "problem": ps, "maxcor": int(rng.integers(1, 11))}
+    for i in range(200 if tier == "quick" else 6000):
+        yield {"kind": "lattice", "problem": {"n": int(rng.integers(1, 7)), "seed": int(rng.integers(0, 2**31 - 1)), "w": float(gen.pick(rng, [1.0, 1.0, 1.0, 0.5, 2.0, 3.0])),
+                                              "cut": bool(rng.random() < 0.4)}, "maxcor": int(rng.integers(1, 11))}
+    for i in range(200 if tier == "quick" else 6000):
+        yield {"kind": "near_bound", "problem": {"n": int(rng.integers(1, 9)), "seed": int(rng.integers(0, 2**31 - 1)), "cond": float(np.exp(rng.uniform(0, np.log(1e3))))},
+               "maxcor": int(rng.integers(1, 11))}
     nmax = 2 if tier == "quick" else 3
     for n in range(1, nmax + 1):
         for pos in itertools.product((0, 1, 2), repeat=n):
@@ -53,6 +59,60 @@ def cases(tier, seed):
                                        "cond": float(10 ** ((rep + sum(pos)) % 4)), "box": "boxed", "start": "pattern",
                                        "pattern": {"pos": list(pos), "sgn": list(sgn)}},
                            "maxcor": 1 + (sum(pos) * 3 + rep) % 10}
+
+
+def make_lattice_lsq(spec):
+    """w*sum((x-a)^2) with a, x0 and the bounds on the quarter-integer lattice, two-sided box containing the mirror image 2a-x0 of the
+    start: every quantity of the first iteration is exact in floating point (for w=1 the first trial point is the mirror image, where
+    the objective TIES with its start value exactly)."""
+    rng = np.random.default_rng(spec["seed"])
+    n = spec["n"]
+    a = rng.integers(-16, 17, n) / 4.0
+    dlt = rng.integers(1, 13, n) / 4.0 * rng.choice([-1.0, 1.0], n)
+    x0 = a + dlt
+    w = float(spec["w"])
+    lo = np.minimum(x0, 2 * a - x0) - rng.integers(0, 5, n) / 4.0
+    hi = np.maximum(x0, 2 * a - x0) + rng.integers(0, 5, n) / 4.0
+    if spec.get("cut"):
+        # on some variables the box cuts the mirror step
+        cut = rng.random(n) < 0.4
+        lo = np.where(cut & (dlt > 0), a - np.abs(dlt) / 2, lo)
+        hi = np.where(cut & (dlt < 0), a + np.abs(dlt) / 2, hi)
+
+    def f(x):
+        return float(w * np.sum((x - a) ** 2))
+
+    def g(x):
+        return 2.0 * w * (x - a)
+
+    meta = dict(L=lambda x: 2.0 * w, Fabs=lambda x: float(w * np.sum((x - a) ** 2)), convex=True)
+    return gen.Problem(dict(family="lattice_lsq", n=n, seed=spec["seed"], box="boxed", start="lattice"), n, f, g, lo, hi, x0, meta)
+
+
+def make_near_bound_optimum(spec):
+    """Box QP whose unconstrained minimiser c (|c| of order 1e2..1e3) lies strictly inside the box but within delta*|bound| of some bounds
+    (delta 1e-7..1e-5): the solution has FREE variables at a relative distance from their bound far below any 'is close' tolerance."""
+    P = gen.make_problem({"family": "qp", "n": spec["n"], "seed": spec["seed"], "cond": spec["cond"], "box": "none", "start": "interior"})
+    rng = np.random.default_rng(spec["seed"] + 1)
+    n = P.n
+    c = rng.uniform(100.0, 1000.0, n) * rng.choice([-1.0, 1.0], n)
+    P.meta["b"][:] = P.meta["A"] @ c  # closures read b by reference: the minimiser is now c
+    lb = np.full(n, -np.inf)
+    ub = np.full(n, np.inf)
+    for i in range(n):
+        r = rng.random()
+        dl = float(np.exp(rng.uniform(np.log(1e-7), np.log(9e-6)))) * abs(c[i])
+        if r < 0.45:
+            lb[i], ub[i] = c[i] - dl, c[i] + float(rng.uniform(20.0, 100.0))
+        elif r < 0.9:
+            lb[i], ub[i] = c[i] - float(rng.uniform(20.0, 100.0)), c[i] + dl
+        elif r < 0.95:
+            lb[i] = c[i] - float(rng.uniform(20.0, 100.0))
+    x0 = np.clip(c + rng.uniform(-15.0, 15.0, n), lb, ub)
+    P.lb, P.ub, P.x0 = lb, ub, x0
+    P.bounds = np.column_stack([lb, ub])
+    P.spec = dict(P.spec, box="near_bound_optimum", start="interior")
+    return P
 
 
 def judge(out, P, tr, where):
@@ -79,7 +139,14 @@ def judge(out, P, tr, where):
 
 def run(spec):
     out = Outcome()
-    P = gen.make_problem(spec["problem"])
+    if spec["kind"] == "lattice":
+        P = make_lattice_lsq(spec["problem"])
+        out.count("lattice_least_squares_runs")
+    elif spec["kind"] == "near_bound":
+        P = make_near_bound_optimum(spec["problem"])
+        out.count("runs_with_free_optimum_grazing_a_bound")
+    else:
+        P = gen.make_problem(spec["problem"])
     cfg = dict(jac="callable", maxcor=spec["maxcor"], ftol=0.0, gtol=GTOL, maxiter=3000, maxfun=30000)
     tr = probes.run_min(P, cfg)
     where = f"{P.spec['family']} n={P.n} box={P.spec.get('box')} start={P.spec.get('start')} maxcor={spec['maxcor']}"
